@@ -84,4 +84,45 @@ CLAIMED["C19"] = {
             "preconditions; default interpreter mode (asserts on); canonicalisation in pv/guards.py.",
 }
 
+_EO_NOTE = ("Trusted: numpy's default orders and transpose semantics; the reviewed list of order-irrelevant sites "
+            "(tables/eo_sites.json); the row-helper contracts; canonical text of expressions (locals inlined).")
+CLAIMED["C01"] = {
+    "technique": "static analysis: enumeration-order typing of every reshape/ravel/flatten/ind2sub/sub2ind site on the conversion "
+                 "paths (explicit-order discipline + pairing of listings), Khatri-Rao convention, inverse-permutation pairing, "
+                 "paired-selector comparison for (de)matricisation, def-use completeness of representation reads, symbolic row counts",
+    "level": "Decides necessary structural conditions of every conversion: F order at each layout-changing call, listings paired in "
+             "one order, argsort inverse in tenmat->tensor, identical selectors for shape entries and subscript columns (row part <-> "
+             "column 0 / rdims, column part <-> column 1 / cdims on both sides), every defining component read by full/double/"
+             "to_tensor, equal row counts at sparse constructors. A C-order reshape, a forward permutation used as inverse or "
+             "differing selectors move entries for every non-degenerate shape. Element-for-element equality is not decided.",
+    "note": _EO_NOTE,
+}
+CLAIMED["C07"] = {
+    "technique": "static analysis: enumeration-order typing of reshape sites, paired-selector comparison (subscript columns vs shape "
+                 "entries, part by part for concatenations), forward-convention agreement of the four permute() siblings",
+    "level": "Decides that dense reshape is F-ordered and sparse reshape goes through the F index pair, that sparse permute/reshape/"
+             "squeeze apply one selector to subscripts and shape, that all four permute implementations select by the order argument "
+             "itself (an argsort in one is the forward/inverse slip) and that Tucker permute uses one order for core and factors. "
+             "Values and round trips are not decided.",
+    "note": _EO_NOTE,
+}
+CLAIMED["C15"] = {
+    "technique": "static analysis: listing-order tag propagation (ravel/flatten/reshape vs tt_ind2sub/tt_sub2ind enumerations) with "
+                 "an agreement check at every element-wise pairing, accumarray(index, value) and reshape-back, in both algorithm "
+                 "versions; presence of the group guards",
+    "level": "Decides that wherever symmetrize / issymmetric combine two listings of the tensor's entries, both are in the same "
+             "order (the C-vs-F slip corrupts exactly the proper-subgroup cases the suite never runs), and that the group size / "
+             "overlap guards exist. Averaging numerics, idempotence and agreement of the two versions are not decided.",
+    "note": _EO_NOTE,
+}
+CLAIMED["C17"] = {
+    "technique": "static analysis: parameter-forwarding and default agreement of the index pair, sort/argsort value tags in "
+                 "tt_dimscheck, axis placement of the Khatri-Rao fold, order discipline in both modules",
+    "level": "Decides that tt_sub2ind/tt_ind2sub forward one F-default order to numpy's mutually inverse pair, that tt_dimscheck "
+             "returns sorted modes and the argsort (or the sorted modes) as multiplicand index under the right condition with the "
+             "right complement, and that khatrirao reverses iff asked and folds new factors onto the fast axis. The set-algebra laws "
+             "of the row helpers are NOT decided (trusted elsewhere).",
+    "note": _EO_NOTE,
+}
+
 NOT_APPLICABLE = {}
